@@ -103,11 +103,26 @@ func genHaulTrace(r *RNG, mode string, probes bool) *Trace {
 	var n int
 	if wide {
 		spec = genParserSpec(r, typ, "huge")
+		if spec.BufferSize < 256<<10 {
+			spec.BufferSize = r.Range(256<<10, 2<<20) // not the "interesting small sizes" here
+		}
 		spec.WindowSize = r.Pick(0, spec.BufferSize, spec.BufferSize/2, 1<<16, 1<<16+1, 1<<20, 1<<20+1)
 		spec.BlockSize = r.Pick(0, 1<<16, 1<<17, spec.BufferSize/3+1)
 		spec.HashBits, spec.HashBits1, spec.HashBits2 = r.Pick(0, 14, 16, 17, 20), r.Pick(0, 12, 16), r.Pick(0, 14, 18)
 		if spec.ShrinkSize > spec.BufferSize/2 {
 			spec.ShrinkSize = spec.BufferSize / r.Pick(2, 3, 8) // a refill must be worth it at this size
+		}
+		if typ == "BUP" {
+			// at most 2^22 bucket entries (38 MiB): 16 workers run side by side
+			for bsz := maxInt(spec.BucketSize, 1); spec.HashBits > 8 && (1<<uint(spec.HashBits))*bsz > 1<<22; {
+				spec.HashBits--
+			}
+			if spec.HashBits == 0 {
+				spec.HashBits = r.Pick(10, 12, 14)
+				if spec.BucketSize > 16 || spec.BucketSize == 0 {
+					spec.BucketSize = r.Pick(4, 10, 16)
+				}
+			}
 		}
 		n = spec.BufferSize + r.Intn(2*spec.BufferSize)
 	} else {
